@@ -12,13 +12,12 @@ package builder
 
 //@ func executeResponseIsSuccessful
 //@   props C09
-//@   requires response != nil && response.Result != nil
 //@   ensures ok-status-and-exit-code-zero: r0 == (ufb("statusok", response.Status) && response.Result.ExitCode == 0)
 
 // The first error wins and an attached error makes the response non-OK.
 //@ func attachErrorToExecuteResponse
 //@   props C09
-//@   requires response != nil && err != nil
+//@   requires err != nil
 //@   ensures first-error-wins: !old(ufb("statusok", response.Status)) ==> response.Status == old(response.Status)
 //@   ensures response-carries-an-error: !ufb("statusok", response.Status)
 
